@@ -253,6 +253,172 @@ def run(ctx):
     ctx.notes["copy_action_cells"] = cells
 
     # ------------------------------------------------------------------
+    R = "C19.tag_histories"
+    ctx.rule(R, "clone() picks the copy action of a tag from the datatype "
+             "recorded for it, so for every short history of the library's "
+             "own tag operations (set, set to None, delete, assignment "
+             "through the generated accessor) that ends storing a dict or a "
+             "list in a custom tag, at every validation level, the clone "
+             "made next does not hold the very same object", floor=40)
+    f_set = ctx.anchor("Line.set", seg.find_method("set"))
+    f_del = ctx.anchor("Line.delete", seg.find_method("delete"))
+    f_def = ctx.anchor("Line._define_field_methods",
+                       seg.find_method("_define_field_methods"))
+    setters = [n for n in ast.walk(f_def.node)
+               if isinstance(n, ast.FunctionDef) and n.name == "setter"]
+    if len(setters) != 1:
+        raise AnalysisError("anchor vanished: the setter closure of "
+                            "_define_field_methods")
+    # the accessor's setter: `self.<method>(fieldname, value)`
+    calls = [n for n in ast.walk(setters[0]) if isinstance(n, ast.Call) and
+             isinstance(n.func, ast.Attribute) and
+             isinstance(n.func.value, ast.Name) and
+             n.func.value.id == setters[0].args.args[0].arg]
+    if len(calls) != 1 or len(setters[0].body) != 1 or \
+            [unparse(a) for a in calls[0].args] != ["fieldname", "value"] \
+            or calls[0].keywords:
+        raise AnalysisError("the accessor setter is no longer one call "
+                            "self.<method>(fieldname, value)")
+    f_acc = seg.find_method(calls[0].func.attr)
+    if f_acc is None:
+        raise AnalysisError("accessor setter target %s not found" %
+                            calls[0].func.attr)
+
+    class TagHooks(CloneHooks):
+        def before_inline(self, ev, func, args, kwargs):
+            if func.name == "_define_field_methods":
+                args[0].attrs["__accessor__"] = True
+                return None
+            if func.name == "_get_default_gfa_tag_datatype":
+                return "J"      # dict, list of mixed values (C20 decides it)
+            if func.name == "_validate_gfa_field":
+                return None     # the values are valid
+            if func.name == "_is_valid_custom_tagname":
+                return True
+            return super().before_inline(ev, func, args, kwargs)
+
+    OPS = ("set", "set-none", "delete", "accessor")
+
+    def apply(ln, op, value):
+        h = TagHooks(repo)
+        if op == "set":
+            return eval_function(repo, f_set, [ln, "xx", value], hooks=h)
+        if op == "set-none":
+            return eval_function(repo, f_set, [ln, "xx", None], hooks=h)
+        if op == "delete":
+            return eval_function(repo, f_del, [ln, "xx"], hooks=h)
+        return eval_function(repo, f_acc, [ln, "xx", value], hooks=h)
+
+    for vl, kind in itertools.product((0, 1, 2, 3), ("dict", "list")):
+        for n in (1, 2, 3):
+            for hist in itertools.product(OPS, repeat=n):
+                if hist[-1] not in ("set", "accessor"):
+                    continue
+                ln = Abs(seg, label="line", _data={"name": "A"},
+                         _datatype={}, vlevel=vl, _virtual=False,
+                         virtual=False, _version="gfa1", _gfa=None, _refs={})
+                feasible = True
+                v = None
+                for i, op in enumerate(hist):
+                    if op == "accessor" and not ln.attrs.get("__accessor__"):
+                        feasible = False    # no accessor defined yet
+                        break
+                    v = Abs(FakeBuiltin(kind), label="value%d" % i,
+                            __builtin__=kind)
+                    out = apply(ln, op, v)
+                    if out[0] != "return":
+                        feasible = False
+                        break
+                if not feasible or ln.attrs["_data"].get("xx") is not v:
+                    continue
+                ctx.instance(R)
+                hooks = CloneHooks(repo)
+                out = eval_function(repo, f_clone, [ln], hooks=hooks)
+                cpy = hooks.built[-1] if hooks.built else None
+                cdata = cpy.attrs.get("_ctor_data") if cpy else None
+                got = cdata.get("xx") if isinstance(cdata, dict) else None
+                ok = out[0] == "return" and got is not None and got is not v
+                ctx.oblige(ok)
+                if not ok:
+                    ctx.violation(
+                        R, f_clone.short,
+                        "history=%s,value=%s,vlevel=%d" % (
+                            "/".join(hist), kind, vl),
+                        "after this history the line holds the %s under "
+                        "datatype %r and clone() hands the same object to "
+                        "the copy (outcome %r)" % (
+                            kind, ln.attrs["_datatype"].get("xx"), out[0]))
+    ctx.exhaustive[R] = True
+
+    # ------------------------------------------------------------------
+    R = "C19.fresh_decodes"
+    ctx.rule(R, "a field kept as text is copied as text and decoded by each "
+             "line on its own first read, so no function on the decoding "
+             "path (the decode / unsafe_decode of every field module, "
+             "Field._parse_gfa_field, Line.get and what they reach in the "
+             "resolved call graph) that may return a mutable object is "
+             "memoised (functools cache decorators, or a module/class level "
+             "table the function both fills and returns from)", floor=30)
+    from .effects_common import program
+    from ..model import FuncInfo
+    prog = program(repo)
+    roots = []
+    for nm in ("decode", "unsafe_decode"):
+        roots += list(prog.field_module_funcs.get(nm, []))
+    if len(roots) < 20:
+        raise AnalysisError("anchor vanished: decode/unsafe_decode of the "
+                            "field modules (%d found)" % len(roots))
+    roots.append(ctx.anchor("Field._parse_gfa_field",
+                            repo.cls("Field").find_method("_parse_gfa_field")))
+    roots.append(ctx.anchor("Line.get", line_cls.find_method("get")))
+    reach, stack = set(), list(roots)
+    while stack:
+        f = stack.pop()
+        if f in reach:
+            continue
+        reach.add(f)
+        for st in prog.sites.get(f, ()):
+            for c in st.callees:
+                if isinstance(c, FuncInfo):
+                    stack.append(c)
+        stack.extend(f.nested.values())
+    # the detector recognises the idiom (checked on every run)
+    probe = ast.parse(
+        "import functools\n"
+        "_T = {}\n"
+        "class K:\n"
+        "  @classmethod\n"
+        "  @functools.lru_cache(maxsize=8)\n"
+        "  def a(cls, s): return [s]\n"
+        "  @staticmethod\n"
+        "  def b(s):\n"
+        "    if s not in _T: _T[s] = [s]\n"
+        "    return _T[s]\n"
+        "  def c(self, s): return [s]\n")
+    pk = probe.body[2]
+    if [bool(memoised(n, {"_T"})) for n in pk.body] != [True, True, False]:
+        raise AnalysisError("the memoisation detector does not recognise "
+                            "its own examples")
+    for f in sorted(reach, key=lambda f: f.qualname):
+        if not f.module.name.startswith("gfapy"):
+            continue
+        ctx.instance(R)
+        shared_names = {t.id for stt in f.module.tree.body
+                        if isinstance(stt, ast.Assign) for t in stt.targets
+                        if isinstance(t, ast.Name)}
+        why = memoised(f.node, shared_names)
+        rt = codec.return_types(repo, f) if why else set()
+        ok = not why or (rt and rt <= immutable)
+        ctx.oblige(ok)
+        if not ok:
+            ctx.violation(R, f.short, why,
+                          "the function is on the decoding path and may "
+                          "return %s: two lines that hold the same text (a "
+                          "line and its clone) receive one shared object" %
+                          (sorted(rt - immutable) or "an object"))
+    ctx.exhaustive[R] = True
+
+    # ------------------------------------------------------------------
     R = "C19.detached"
     ctx.rule(R, "clone() returns the object it constructs with "
              "self.__class__(copied data, same vlevel/virtual/version); the "
@@ -425,6 +591,51 @@ def run(ctx):
                "(bytes), Placeholder, AlignmentPlaceholder and LastPos are "
                "immutable; list, dict, CIGAR, Trace, NumericArray, "
                "OrientedLine, FieldArray and Line are mutable (spec.py)")
+
+
+MEMO_DECORATORS = {"lru_cache", "cache", "cached_property", "memoize",
+                   "memoized", "memo"}
+
+
+def memoised(node, shared_names):
+    """why the function `node` hands out one stored object for equal
+    arguments, or None"""
+    for d in node.decorator_list:
+        e = d.func if isinstance(d, ast.Call) else d
+        name = dotted(e)
+        if name and name.split(".")[-1] in MEMO_DECORATORS:
+            return "@" + unparse(d)
+    first = node.args.args[0].arg if node.args.args else None
+
+    def table(e):
+        """module-level name or class-level attribute (cls.X / self.X is
+        excluded for instances: only the first parameter of a classmethod)"""
+        if isinstance(e, ast.Name) and e.id in shared_names:
+            return e.id
+        if isinstance(e, ast.Attribute) and isinstance(e.value, ast.Name) \
+                and e.value.id == "cls" and first == "cls":
+            return "cls." + e.attr
+        return None
+    filled = set()
+    for n in ast.walk(node):
+        if isinstance(n, ast.Subscript) and isinstance(n.ctx, ast.Store) and \
+                table(n.value):
+            filled.add(table(n.value))
+        if isinstance(n, ast.Call) and isinstance(n.func, ast.Attribute) and \
+                n.func.attr == "setdefault" and table(n.func.value):
+            filled.add(table(n.func.value))
+    for n in ast.walk(node):
+        if isinstance(n, ast.Return) and n.value is not None:
+            v = n.value
+            t = None
+            if isinstance(v, ast.Subscript):
+                t = table(v.value)
+            elif isinstance(v, ast.Call) and isinstance(v.func, ast.Attribute) \
+                    and v.func.attr in ("get", "setdefault"):
+                t = table(v.func.value)
+            if t and t in filled:
+                return "table %s filled and returned from" % t
+    return None
 
 
 class FakeBuiltin:
